@@ -638,6 +638,11 @@ func writeTypeConversion(w *formatting.IndentedWriter, typeChange dsl.TypeChange
 			w.Indented(func() {
 				fmt.Fprintf(w, "%s = %s.value();\n", targetName, sourceName)
 			})
+			fmt.Fprintf(w, "} else {\n")
+			w.Indented(func() {
+				// the destination may be reused between reads and still hold a value
+				fmt.Fprintf(w, "%s = {};\n", targetName)
+			})
 			fmt.Fprintf(w, "}\n")
 		} else {
 			fmt.Fprintf(w, "%s = %s;\n", targetName, sourceName)
@@ -651,6 +656,11 @@ func writeTypeConversion(w *formatting.IndentedWriter, typeChange dsl.TypeChange
 			fmt.Fprintf(w, "if (%s.index() == %d) {\n", sourceName, tc.TypeIndex)
 			w.Indented(func() {
 				fmt.Fprintf(w, "%s = std::get<%d>(%s);\n", targetName, tc.TypeIndex, sourceName)
+			})
+			fmt.Fprintf(w, "} else {\n")
+			w.Indented(func() {
+				// the destination may be reused between reads and still hold a value
+				fmt.Fprintf(w, "%s = {};\n", targetName)
 			})
 			fmt.Fprintf(w, "}\n")
 		} else {
@@ -666,6 +676,11 @@ func writeTypeConversion(w *formatting.IndentedWriter, typeChange dsl.TypeChange
 			fmt.Fprintf(w, "if (%s.index() == %d) {\n", sourceName, tc.TypeIndex)
 			w.Indented(func() {
 				fmt.Fprintf(w, "%s = std::get<%d>(%s);\n", targetName, tc.TypeIndex, sourceName)
+			})
+			fmt.Fprintf(w, "} else {\n")
+			w.Indented(func() {
+				// the destination may be reused between reads and still hold a value
+				fmt.Fprintf(w, "%s = {};\n", targetName)
 			})
 			fmt.Fprintf(w, "}\n")
 		} else {
